@@ -228,6 +228,8 @@ def run (ctx):
   ctx.floor("bit-field composites checked", n_bf, 4)
   _checksum(ctx, repo)
   _skipwords(ctx, repo)
+  _udp_zero(ctx, repo)
+  _hdr_copies(ctx, repo)
   _option_walkers(ctx, repo)
 
 def _bitfields (ctx, repo, mod, cls, pf, hf, Pf, H, hcall):
@@ -337,6 +339,26 @@ def _derived (ctx, repo, mod, cls, hf, H, hcall):
       ctx.ob('R-AGREE', f, "checksum of %s is computed over the header with 0 in the checksum slot" % cls.name, good,
              "slot %d is the literal 0" % idx if good else "the header copy used for the checksum has `%s` in the checksum slot (index %d)" % (norm(a), idx), (mod, c), 'D3')
       ctx.ob('R-AGREE', f, "checksum of %s covers the same field values that are emitted" % cls.name, others, "same arguments" if others else "the checksummed header copy differs from the emitted header in another slot", (mod, c), 'D3')
+      # parts of this header that are emitted next to the packed fields (options) are summed as well
+      def chain_parts (fn_node, call):
+        par = {}
+        for x in ast.walk(fn_node):
+          for ch in ast.iter_child_nodes(x): par[id(ch)] = x
+        top = call
+        while isinstance(par.get(id(top)), ast.BinOp) and isinstance(par[id(top)].op, ast.Add): top = par[id(top)]
+        parts = []
+        def flat (e):
+          if isinstance(e, ast.BinOp) and isinstance(e.op, ast.Add): flat(e.left); flat(e.right)
+          elif e is not call: parts.append(e)
+        flat(top)
+        return parts
+      emitted = [norm(x) for x in chain_parts(hf.node, hcall) if isinstance(x, ast.Attribute) and norm(x.value) == 'self']
+      summed = [norm(x) for x in chain_parts(f.node, c)]
+      missing = [x for x in emitted if x not in summed]
+      if emitted:
+        ctx.ob('R-AGREE', f, "checksum of %s covers the header parts emitted beside the fixed fields (%s)" % (cls.name, ", ".join(emitted)), not missing,
+               "summed: packed fields + %s" % ", ".join(summed) if not missing else
+               "hdr() emits the packed fields followed by %s, but the checksum is computed without %s: every header that carries options goes out with a checksum receivers reject" % (", ".join(emitted), ", ".join(missing)), (mod, c), 'D3')
 
 def _checksum (ctx, repo):
   mod = repo.mod(PK + '.packet_utils')
@@ -468,6 +490,62 @@ def _skipwords (ctx, repo):
         ctx.ob('R-AGREE', f, "%s over IPv%d: skip word == (pseudo-header %d + checksum offset %d) / 2" % (cname.upper(), ver, size, cs_off), k == want,
                "%d" % k if k == want else "checksum() is told to skip word %d but the checksum field is word %d of pseudo-header+segment: verification of received segments sums the wrong word" % (k, want), (mod, c), 'D4')
   ctx.floor('skip-word constants', n, 4)
+
+def _hdr_copies (ctx, repo):
+  """a checksum method that re-creates its own header with self.hdr(...) must get the header that is emitted, except for the
+  checksum itself: any other switch of hdr() keeps the value packet_base.pack() uses (its default)"""
+  n = 0
+  for mname in ('tcp', 'udp', 'icmp', 'icmpv6', 'igmp', 'ipv4'):
+    try: mod = repo.mod(PK + '.' + mname)
+    except Exception: continue
+    for cls in mod.classes.values():
+      f = cls.methods.get('checksum'); hf = cls.methods.get('hdr')
+      if f is None or hf is None: continue
+      a = hf.node.args
+      defaults = dict(zip([x.arg for x in a.args][len(a.args) - len(a.defaults):], a.defaults))
+      for c in calls_in(f.node):
+        if not (call_name(c) == 'hdr' and isinstance(c.func, ast.Attribute) and norm(c.func.value) == 'self'): continue
+        n += 1
+        given = {}
+        for i, x in enumerate(c.args):
+          if i + 1 < len(hf.params): given[hf.params[i + 1]] = x
+        for k in c.keywords:
+          if k.arg: given[k.arg] = k.value
+        off = [(k_, v_) for k_, v_ in given.items() if k_ in defaults and 'checksum' not in k_ and 'csum' not in k_ and norm(v_) != norm(defaults[k_])]
+        ctx.ob('R-AGREE', f, "the header copy that is checksummed is built like the emitted one (`%s`)" % norm(c)[:60], not off, "only the checksum computation is switched off" if not off else
+               "the copy is built with %s (emission uses the default %s): the derived field this switch controls is recomputed in the emitted header but not in the checksummed copy, so the two differ whenever it changes (e.g. the data offset with TCP options)"
+               % (", ".join("%s=%s" % (k_, norm(v_)) for k_, v_ in off), ", ".join(norm(defaults[k_]) for k_, v_ in off)), (mod, c), 'D3')
+  ctx.stat('checksum methods rebuilding their header through hdr()', n)
+
+def _udp_zero (ctx, repo):
+  """UDP: a computed checksum of zero goes on the wire as 0xffff (zero means 'no checksum', and is illegal over IPv6);
+  decided by evaluating udp.checksum() with the sum routine answering 0 and 0x1234"""
+  mod = repo.mod(PK + '.udp'); cls = mod.classes.get('udp')
+  f = cls.methods.get('checksum') if cls is not None else None
+  if f is None: return
+  g = q.cfg_of(f)
+  for ipname in ('ipv4', 'ipv6'):
+    res = {}
+    for sumv in (0, 0x1234):
+      def hook (call, env=None, sumv=sumv):
+        if isinstance(call.func, ast.Name) and call.func.id == 'checksum': return (True, sumv)
+        return (False, None)
+      env = q.Env({'self.prev.__class__.__name__': ipname, f.params[1] if len(f.params) > 1 else 'unparsed': True}, [], hook)
+      vals = set()
+      after = set()
+      for n in g.nodes_with_call(lambda c: isinstance(c.func, ast.Name) and c.func.id == 'checksum'): after |= g.reachable(n, exc=False) | {n}
+      rets = [n for n in g.nodes if n.kind == 'return' and n in after]
+      for p_, e_ in q.paths_under(repo, mod, g, env, g.entry, rets, cls, limit=40):
+        try: vals.add(q.eval_env2(repo, mod, p_[-1].ast.value, e_, cls))
+        except Exception: vals.add('?')
+      res[sumv] = vals
+    if not res[0] or '?' in res[0] or '?' in res[0x1234]:
+      ctx.undecided('R-AGREE', f, "UDP over %s: a zero sum is sent as 0xffff" % ipname, "result not evaluable (%s)" % res, f, 'D4')
+    else:
+      good = res[0] == {0xffff} and res[0x1234] == {0x1234}
+      ctx.ob('R-AGREE', f, "UDP over %s: a zero sum is sent as 0xffff, any other sum unchanged" % ipname, good, "0 -> 0xffff, 0x1234 -> 0x1234" if good else
+             "when the one's complement sum comes out as 0 the method returns %s (and %s for 0x1234): a datagram whose checksum computes to zero is sent as 'no checksum' - receivers skip validation over IPv4 and drop it over IPv6"
+             % (sorted(res[0]), sorted(res[0x1234])), f, 'D4')
 
 def _option_walkers (ctx, repo):
   """loops that advance by 1 for one-byte options must run while a single byte remains"""
